@@ -4,10 +4,6 @@
 
 package sim
 
-//@ spec func ssum(sp []int64, bf bitfield.BitField, n mathint) mathint
-//@ pred ssumDef(sp []int64, bf bitfield.BitField) = ssum(sp, bf, 0) == 0
-//@     && forall(k, 0, bfCount(bf), ssum(sp, bf, k+1) == ssum(sp, bf, k) + sp[bfBit(bf, k)], trigger(bfBit(bf, k)))
-
 //@ pred tableOK(pt *gpbft.PowerTable) = len(pt.ScaledPower) == len(pt.Entries) && len(pt.Entries) <= 4294967296
 //@     && 0 <= pt.ScaledTotal && pt.ScaledTotal <= 65535
 //@     && forall(i, 0, len(pt.ScaledPower), 0 <= pt.ScaledPower[i] && pt.ScaledPower[i] <= 65535)
